@@ -27,19 +27,22 @@ func init() {
 type vecIdx struct {
 	vi  *vecfc.Index
 	src map[hash.Event]dag.Event
+	db  *memorydb.Database
+}
+
+func (x *vecIdx) getEvent(h hash.Event) dag.Event {
+	e, ok := x.src[h]
+	if !ok {
+		return nil
+	}
+	return e
 }
 
 func newVecIdx(plan *cons.EpochPlan, cfg cons.IndexCfg) *vecIdx {
-	x := &vecIdx{src: map[hash.Event]dag.Event{}}
+	x := &vecIdx{src: map[hash.Event]dag.Event{}, db: memorydb.New()}
 	crit := func(err error) { panic(err) }
 	x.vi = vecfc.NewIndex(crit, cfg.Config())
-	x.vi.Reset(plan.Validators(), memorydb.New(), func(h hash.Event) dag.Event {
-		e, ok := x.src[h]
-		if !ok {
-			return nil
-		}
-		return e
-	})
+	x.vi.Reset(plan.Validators(), x.db, x.getEvent)
 	return x
 }
 
@@ -162,10 +165,39 @@ func runVec(c *ev.Ctx, fcSide bool) {
 					return
 				}
 				known = append(known, e)
+				if !fcSide && (k == 2 || r.Intn(4) == 0) {
+					// merged clocks are also asked for BETWEEN insertions (a node computes the cheaters of a block while the
+					// DAG keeps growing): a query must not change what later events, built on top of the queried one, report
+					x.vi.GetMergedHighestBefore(e.ID())
+					x.vi.GetMergedHighestBefore(known[r.Intn(len(known))].ID())
+					c.Count("merged_clock_queries_between_insertions", 2)
+				}
 			}
 			idxs = append(idxs, x)
 		}
 		c.Eval(1)
+		// C06: one long-lived index object is Reset to a second database, filled there with the same events in another
+		// order (fork branches get other numbers), queried, and Reset BACK to the first database: the answers must be
+		// those of the first database's content again (nothing cached from the other database may survive).
+		if !fcSide && i%2 == 0 && n > 1 {
+			x := idxs[0]
+			for a := 0; a < N; a++ {
+				x.vi.GetMergedHighestBefore(ref.Ev(a).ID)
+			}
+			db1 := x.db
+			x.vi.Reset(plan.Validators(), memorydb.New(), x.getEvent)
+			for _, e := range cons.Order(r, evs, cons.OrderKind([]cons.OrderKind{cons.OrdLIFO, cons.OrdRandom, cons.OrdCreatorEarly, cons.OrdFIFO}[i/2%4])) {
+				if err := x.add(e); err != nil {
+					c.Violation("index-add-failed", map[string]interface{}{"case": i, "event": e.Name, "after": "Reset to a second database", "err": err.Error()})
+					return
+				}
+			}
+			for a := 0; a < N; a++ {
+				x.vi.GetMergedHighestBefore(ref.Ev(a).ID)
+			}
+			x.vi.Reset(plan.Validators(), db1, x.getEvent)
+			c.Count("indexes_reset_to_another_database_and_back", 1)
+		}
 		// a long-lived index: after all queries of the first round it is Reset() to the same validators with
 		// DIFFERENT weights over a fresh DB and the same events (same IDs) are indexed again; answers must be
 		// those of the new weights (no state may survive a Reset).
